@@ -5,7 +5,7 @@ from pcv import core, capio, gen
 
 P = "PcVerif.Props.C02."
 THEOREMS = [P + t for t in ["sami_plan_entries", "microdvd_constants_pinned", "fields_in_range", "format_denotes", "vtt_timestamp_denotes", "vtt_hours_omitted_iff",
-                            "sami_sync_plan", "sami_single_language_plan"]]
+                            "sami_sync_plan", "sami_single_language_plan", "format_injective", "vtt_timestamp_injective", "written_ms_truncates"]]
 H24 = 86400 * 10 ** 6
 
 
